@@ -116,6 +116,8 @@ def run(chk):
         chk.configs.append(cfg)
         facts = Facts(cfg)
         run_config(chk, facts)
+    from . import trec
+    trec.run_scope(chk, "C13-d", scope="color", floor=2)
     chk.assume("the embedder's ColorPainter implementation is a black box: balance is established for the "
                "callback stream skrifa emits, per call of paint()")
     chk.assume("A-CB: calls dispatched on the embedder's type parameter get no call-graph edge")
@@ -172,9 +174,19 @@ def run_config(chk, facts):
     ok, why = check_depth_param_recursion(twc, self_calls)
     chk.ob("C13-b", f"{twc.path}: {why}", ok, key=f"{twc.path}|depth", file=twc.file, line=twc.lo, fn=twc.path, detail=why)
     # the root call passes a constant
+    def param_index(body, pred):
+        for i in range(1, body.argc + 1):
+            if pred(body.local_name(i), body.locals[i][0]):
+                return i - 1
+        return None
+    depth_ix = param_index(twc, lambda n, ty: "depth" in n and ty in ("u32", "usize", "u16", "u8", "i32"))
+    decy_ix = param_index(twc, lambda n, ty: "Decycler" in ty)
+    if depth_ix is None:
+        chk.ob("C13-b", "traverse_with_callbacks has an integer depth parameter", False, key=f"{twc.path}|depth-param",
+               file=twc.file, line=twc.lo, fn=twc.path, detail="no integer parameter named *depth*: the recursion has no depth counter")
     for bb, t in paint.calls():
-        if t.callee == twc.path:
-            e = strip_casts(expr_of(paint, t.args[5]))
+        if t.callee == twc.path and depth_ix is not None and depth_ix < len(t.args):
+            e = strip_casts(expr_of(paint, t.args[depth_ix]))
             chk.ob("C13-b", f"ColorGlyph::paint passes initial depth {show(paint, e)}",
                    e[0] == "const" and e[2] is not None and e[2] <= 8,
                    key=f"{paint.path}|root-depth", file=paint.file, line=t.line, fn=paint.path,
@@ -188,8 +200,12 @@ def run_config(chk, facts):
     n_guarded = 0
     for b, calls in ((twc, self_calls), (paint, [(bb, t) for bb, t in paint.calls() if t.callee == twc.path])):
         for bb, t in calls:
-            # decycler argument (index 3): rooted at a guard local (from enter) or at the parameter
-            arg = t.args[3]
+            # decycler argument: rooted at a guard local (from enter) or at the parameter
+            if decy_ix is None or decy_ix >= len(t.args):
+                chk.ob("C13-c", "traverse_with_callbacks takes the decycler", False, key=f"{twc.path}|decycler-param",
+                       file=twc.file, line=twc.lo, fn=twc.path, detail="no Decycler parameter: paint-graph cycles are not guarded")
+                break
+            arg = t.args[decy_ix]
             root = b.root_place(op_place(arg))
             rl = root[0]
             # `let mut g = decycler.enter(id)?;` : g is the Continue payload of Try::branch(enter(..))
